@@ -20,6 +20,8 @@ NOT_DECIDED = ("equality with a fresh dataset as data (follows if no state leaks
 TRUSTED = ("CPython ast",)
 TECHNIQUE = "static analysis: definite-assignment on all paths, dominance/ordering rules on the shared state"
 
+from . import loader_folds as lfold
+
 
 def r1(run, tree):
     run.rule("C15.R1", "definite reset of consulted reader state", "definite assignment over all paths", "", floor=1)
@@ -33,14 +35,13 @@ def r2(run, tree):
 
 
 def r3(run, tree):
-    run.rule("C15.R3", "shared meta reset; groups replaced; per-call containers", "dominance", "", floor=8)
-    lr.check_counters(run, tree)
+    run.rule("C15.R3", "shared meta reset; groups replaced; per-call containers (two-load history on one Loader)", "D7 fold of Loader.load over recording readers on 9 scenarios + a two-load history, compared with the traversal specification", "", floor=10)
+    lfold.check_load(run, tree)
 
 
 def r4(run, tree):
-    run.rule("C15.R4", "per-file reset (protocol skeleton)", "protocol extraction", "", floor=10)
-    io.check_skeleton(run, tree)
-    io2.check_inactive_readers(run, tree)
+    run.rule("C15.R4", "per-file reset: offsets zeroed and bytes replaced before every header", "D7 fold of Loader.load over recording readers on 9 scenarios + a two-load history, compared with the traversal specification", "", floor=10)
+    lfold.check_load(run, tree)
 
 
 RULES = [r1, r2, r3, r4]
